@@ -39,10 +39,12 @@ inline int kind_from(const std::string &s) {
 }
 struct Op {
   int k = 0, i = 0, j = 0, a = 0, b = 0, c = 0;
+  int f = 0;  // fault index: the f-th throwing event inside this operation throws (0 = none)
 };
 inline std::string op_str(const Op &o) {
-  char buf[96];
-  std::snprintf(buf, sizeof buf, "%s:%d:%d:%d:%d:%d", kind_name(o.k), o.i, o.j, o.a, o.b, o.c);
+  char buf[112];
+  if (o.f) std::snprintf(buf, sizeof buf, "%s:%d:%d:%d:%d:%d:!%d", kind_name(o.k), o.i, o.j, o.a, o.b, o.c, o.f);
+  else std::snprintf(buf, sizeof buf, "%s:%d:%d:%d:%d:%d", kind_name(o.k), o.i, o.j, o.a, o.b, o.c);
   return buf;
 }
 inline bool op_parse(const std::string &s, Op &o) {
@@ -50,7 +52,8 @@ inline bool op_parse(const std::string &s, Op &o) {
   std::stringstream ss(s);
   std::string t;
   while (std::getline(ss, t, ':')) f.push_back(t);
-  if (f.size() != 6) return false;
+  if (f.size() != 6 && f.size() != 7) return false;
+  o.f = f.size() == 7 ? std::atoi(f[6].c_str() + (f[6][0] == '!' ? 1 : 0)) : 0;
   o.k = kind_from(f[0]);
   if (o.k < 0) return false;
   o.i = std::atoi(f[1].c_str());
